@@ -141,6 +141,10 @@ async fn main() {
                     print_section("AUTHORITY", &[soa_rr]);
                 }
             }
+            ResolvedRecord::Referral { ns_rrs } => {
+                print_section("ANSWER", &[]);
+                print_section("AUTHORITY", &ns_rrs);
+            }
         },
         Err(err) => {
             println!("\n;; ANSWER");
